@@ -514,24 +514,39 @@ func (w *World) invoke(r *Reg, ft reflect.Type, args []reflect.Value) []reflect.
 	}
 	switch r.Form {
 	case FormPlain, FormMulti:
+		objs := make([]reflect.Value, len(r.Outs))
 		for i, o := range r.Outs {
 			if o.Nil {
 				inv.Outs = append(inv.Outs, nil) // res[i] stays the zero (nil) interface
 				continue
 			}
+			if o.Same {
+				// the very instance of an earlier output, under another declared type
+				inv.Outs = append(inv.Outs, inv.Outs[o.SameAs])
+				res[i] = objs[o.SameAs].Convert(ft.Out(i))
+				continue
+			}
 			e, obj := w.newEntry(r, i, o.implFor(inv), inv)
 			inv.Outs = append(inv.Outs, e)
+			objs[i] = obj
 			res[i] = wrapOut(o.T, obj, ft.Out(i))
 		}
 	case FormOut:
 		st := reflect.New(ft.Out(0)).Elem()
+		objs := make([]reflect.Value, len(r.Outs))
 		for i, o := range r.Outs {
 			if o.Nil {
 				inv.Outs = append(inv.Outs, nil) // the field stays nil
 				continue
 			}
+			if o.Same {
+				inv.Outs = append(inv.Outs, inv.Outs[o.SameAs])
+				st.Field(i + 1).Set(objs[o.SameAs].Convert(st.Field(i + 1).Type()))
+				continue
+			}
 			e, obj := w.newEntry(r, i, o.implFor(inv), inv)
 			inv.Outs = append(inv.Outs, e)
+			objs[i] = obj
 			st.Field(i + 1).Set(wrapOut(o.T, obj, st.Field(i+1).Type()))
 		}
 		res[0] = st
